@@ -2289,7 +2289,8 @@ static Node *to_assign(Node *binary) {
   Token *tok = binary->tok;
 
   // Convert `A.x op= C` to `tmp = &A, (*tmp).x = (*tmp).x op C`.
-  if (binary->lhs->kind == ND_MEMBER) {
+  // (An atomic member is not a bit-field; it is handled below.)
+  if (binary->lhs->kind == ND_MEMBER && !binary->lhs->ty->is_atomic) {
     Obj *var = new_lvar("", pointer_to(binary->lhs->lhs->ty));
 
     Node *expr1 = new_binary(ND_ASSIGN, new_var_node(var, tok),
